@@ -62,6 +62,11 @@ RKIND = {
     # the Martini way (DEX / CEL / P3HT of polyply's own library tests): the site occurs in no bond or constraint
     "U": dict(atoms=[("U1", "SC", None), ("U2", "SC", 45.0), ("US", "VS", 0.0)], bonds=[(0, 1, 0.30)],
               vs=[(2, (0, 1))], cin=0, cout=1),
+    # Martini virtual site written with an ordinary bead type: EXPLICIT mass 0.0 in [ atoms ], the atomtype has mass 45
+    "Z": dict(atoms=[("Z1", "SC", None), ("Z2", "SC", 45.0), ("ZS", "SC", 0.0)], bonds=[(0, 1, 0.30), (0, 2, 0.15)],
+              vs=[(2, (0, 1))], cin=0, cout=1),
+    # a massless bonded dummy atom of a massive type next to an atom without mass column
+    "Q": dict(atoms=[("Q1", "C1", None), ("Q2", "P4", 0.0)], bonds=[(0, 1, 0.25)], vs=[], cin=0, cout=0),
 }
 
 
@@ -88,11 +93,16 @@ TYPES = {
     "PD": chain_type("PD", [("RD", "D")] * 3),
     "PV": chain_type("PV", [("RV", "V"), ("RV", "V"), ("RS", "S")]),
     "PU": chain_type("PU", [("RU", "U"), ("RU", "U"), ("RS", "S")]),
+    "PZ": chain_type("PZ", [("RZ", "Z"), ("RZ", "Z"), ("RS", "S")]),
+    "MZ": chain_type("MZ", [("RA", "S"), ("RZ", "Z"), ("RD", "D"), ("RQ", "Q")]),
+    "PM3": chain_type("PM3", [("RA", "S"), ("RB", "S"), ("RA", "S")]),
     "C8": chain_type("C8", [("RA", "S")] * 8),
     "BR": branched_type("BR"),
     "R6": ring_type("R6", 6),
     "MX": chain_type("MX", [("RA", "S"), ("RD", "D"), ("RA", "S"), ("RV", "V"), ("RA", "S"), ("RD", "D")]),
 }
+TYPES["RM3"] = dict(chain_type("RM3", [("RA", "S"), ("RB", "S"), ("RA", "S")]), edges=[[0, 1], [1, 2], [2, 0]])
+TYPES["RM4"] = dict(chain_type("RM4", [("RA", "S"), ("RB", "S"), ("RA", "S"), ("RB", "S")]), edges=[[0, 1], [1, 2], [2, 3], [3, 0]])
 for _n in range(3, 9):
     TYPES[f"RG{_n}"] = ring_type(f"RG{_n}", _n)
 for _n in range(5, 11):
@@ -188,7 +198,7 @@ def parse_gro(path):
     return rows, box, len([l for l in lines[3 + n:] if l.strip()])
 
 
-def layout(mols, rng):
+def layout(mols, rng, dx=0.5):
     """own generator of supplied coordinates: every molecule on its own lattice row (0.5 nm apart along x, rows 0.6 nm
     apart), residue atoms a few hundredths of nm around the centre, all values with three decimals"""
     centres, atoms = [], []
@@ -196,7 +206,7 @@ def layout(mols, rng):
     for mi, mol in enumerate(mols):
         cs, as_ = [], []
         for ri, blk in enumerate(mol["blocks"]):
-            c = np.array([0.45 + 0.5 * ri, 0.45 + 0.6 * (mi % 5), 0.45 + 0.6 * (mi // 5)]) + np.array([rng.uniform(-0.03, 0.03) for _ in range(3)])
+            c = np.array([0.45 + dx * ri, 0.45 + 0.6 * (mi % 5), 0.45 + 0.6 * (mi // 5)]) + np.array([rng.uniform(-0.03, 0.03) for _ in range(3)])
             c = np.round(c, 3)
             cs.append(c)
             if len(blk) == 1:
@@ -731,7 +741,7 @@ def _eval_world(w, d):
     co = w.get("coords")
     if co:
         mode, k = co["mode"], co["k"]
-        centres, atoms = layout(mols, rng)
+        centres, atoms = layout(mols, rng, float(co.get("dx", 0.5)))
         struct_box = [float(x) for x in co["box"]]
         if mode in ("c", "mc"):
             plan = split_plan(mols, skip, k)
@@ -816,7 +826,7 @@ def _eval_world(w, d):
         nontrivial = crossed > 0 or len(mols) > 1
     if unit == "c07":
         wbad, _ = check_walk(mols, plan, probe, 1.0, grid_rows, float(w.get("gs") or 0.2))
-        bad += [x for x in wbad if x[0] in ("c05-step-length", "c05-outside-box")]
+        bad += [x for x in wbad if x[0] in ("c05-step-length", "c05-outside-box", "c05-closer-than-0.1")]
         rbad, active = check_restraints(mols, probe, restraints, w.get("cycles") or [], float(w.get("cycle_tol") or 0.0))
         bad += rbad
         info["active"] = active
@@ -920,7 +930,8 @@ def c03_options(mollist):
               {"mode": "c", "k": ntot, "box": sbox}, {"mode": "c+mc", "k": n0, "box": sbox}]
     blds = [None, "sphere", "volumes"]
     grids = [None, 25]
-    starts = [None, [f"{t0}-{r0}#{1 if n0 == 1 else 2}"], [f"{t0}#0-{r0}#1"]]
+    rid = max(i + 1 for i, (rn, _) in enumerate(TYPES[t0]["res"]) if rn == r0 and i < 2)     # an existing residue of that name
+    starts = [None, [f"{t0}-{r0}#{rid}"], [f"{t0}#0-{r0}#1"]]
     out = []
     for base, co, bld, grid, start in itertools.product(bases, coords, blds, grids, starts):
         ress = [None] if co is None or co["mode"] == "c+mc" else [None, [r0]]
@@ -947,7 +958,8 @@ def run_c03(ctx, res):
                 if sum(counts) <= 6:
                     topologies.append([[t, c] for t, c in zip(order, counts)])
     repeated = [[["PA", 1], ["W", 2], ["PA", 1]], [["W", 1], ["PV", 1], ["W", 2]], [["PD", 1], ["PD", 2]], [["W", 1], ["PA", 1], ["W", 1], ["PA", 1]],
-                [["BR", 1], ["W", 2]], [["R6", 1], ["MX", 1]], [["PU", 1]], [["W", 2], ["PU", 1]], [["PU", 2], ["PA", 1]]]
+                [["BR", 1], ["W", 2]], [["R6", 1], ["MX", 1]], [["PU", 1]], [["W", 2], ["PU", 1]], [["PU", 2], ["PA", 1]],
+                [["PZ", 1], ["W", 2]], [["MZ", 1], ["PZ", 1]], [["PA", 1], ["MZ", 2]]]
     topologies += repeated
     full_on = [[["PA", 2], ["W", 3]], [["W", 2], ["PV", 1], ["PD", 1]], [["PD", 1]]]
     nseeds = 2 if not ctx.thorough else 6
@@ -966,12 +978,25 @@ def run_c03(ctx, res):
         for j in range(per_top):
             o = opts[(ti * 17 + j * 101) % len(opts)]
             worlds.append(dict(o, unit="c03", molecules=ml, seed=seeds[(ti + j) % nseeds]))
+    dens_tops = [[["PZ", 1]], [["PZ", 3]], [["W", 2], ["PZ", 1]], [["PZ", 1], ["PD", 2], ["W", 1]], [["MZ", 1]], [["MZ", 2], ["PV", 1]],
+                 [["PD", 1], ["MZ", 1], ["PZ", 1]], [["PV", 2]], [["PU", 1], ["PZ", 1]], [["MX", 1], ["MZ", 1]]]
+    n_dens = 0
+    for ml in dens_tops:
+        t0, r0 = ml[0][0], first_resname(ml)
+        for dens in (25.0, 40.0, 80.0):
+            for extra in ({}, {"grid": 25}, {"start": [f"{t0}#0-{r0}#1"]}, {"bld_extra": f"[ volumes ]\n{r0} 0.5\n"}):
+                for s in seeds[:2]:
+                    worlds.append(dict(extra, unit="c03", molecules=ml, dens=dens, seed=s))
+                    n_dens += 1
     res.bound = (f"topologies: every ordered choice of 1-3 distinct molecule types from {names} (W: one bead; PA: 4 one-bead residues RA,RA,RA,RB; PD: 3 two-atom "
                  f"residues, one atom with its mass in [atoms]; PV: 2 three-atom residues with a virtual_sitesn site (also bonded) + 1 bead) x every count vector in {{1,2,3}}^k "
                  f"with <= 6 molecules ({len(topologies) - len(repeated)} topologies) + {len(repeated)} with a repeated type / branched / ring / mixed-size molecules / PU = virtual site that occurs in no bond (Martini style), each under "
                  f"{per_top} option sets taken round-robin from the option product; on {len(full_on)} topologies the COMPLETE product (up to {nopt} sets): "
                  "{-box cubic, -box non-cubic, -dens} x {no structure, -c half (may cut a chain), -mc half, -c all, -c and -mc} x {-b none, sphere restraint, volumes} "
                  "x {-res none / first residue name} x {-grid none / 25 points} x {-start none / by name / by molecule index}; "
+                 f"+ {n_dens} worlds with the box from -dens ALONE (no -box, no structure) on {len(dens_tops)} topologies whose [ atoms ] state masses for some atoms only, "
+                 "including an explicit 0.0 on virtual sites / dummy atoms whose atomtype has a non-zero mass (PZ, MZ) and on sites of a massless type (PV, PU): "
+                 "densities {25, 40, 80} x {plain, -grid, -start, -b volumes} x 2 seeds; "
                  f"{nseeds} seeds (seeded, not exhaustive over placements); {len(worlds)} gen_coords calls")
     res.rule = ("world = (topology, option set, seed), written as sys.top + ff.itp + mols.itp (+ in.gro, opts.bld, grid.dat); non-trivial iff distinct and it has "
                 ">= 2 [molecules] lines or any of -c/-mc/-b/-grid/-start")
@@ -1098,10 +1123,41 @@ def run_c05(ctx, res):
                 for s in seeds:
                     started.append(dict(unit="c05", molecules=ml, box=box, sf=sf, start=st, seed=s))
     worlds += started
+    # small rings: the residue that closes a ring of 3 / 4 is grown next to a positioned bonded neighbour other than the residue
+    # it is grown from; several molecules, short steps, residue size 0.47 (template) and 0.40 ([ volumes ])
+    rseeds = seeds_for(ctx, 6 if not ctx.thorough else 16)
+    rings = []
+    for rt in ("RG3", "RG4"):
+        for cnt in (6, 10):
+            for sf in (0.6, 0.8):
+                for bx, g in (([6.0, 5.0, 7.0], {"grid": 40}), ([3.0, 3.0, 3.0], {})):
+                    for vol in (None, 0.4):
+                        for s in rseeds:
+                            w = dict(g, unit="c05", molecules=[[rt, cnt]], box=bx, sf=sf, seed=s)
+                            if vol:
+                                w["bld_extra"] = f"[ volumes ]\nRA {vol}\n"
+                            rings.append(w)
+    worlds += rings
+    # a rebuilt residue between two supplied ones (chain A-B-A, rings A-B-A and A-B-A-B, -res RB): the supplied neighbours are laid
+    # out one step apart, so the sphere of directions around the parent passes through the other neighbour
+    between = []
+    for mt in ("PM3", "RM3", "RM4"):
+        ncov = sum(1 for rn, _ in TYPES[mt]["res"] if rn != "RB")
+        for cnt in (4, 6):
+            for sf in (0.6, 0.8):
+                for mode in ("c", "mc"):
+                    for s in rseeds:
+                        between.append(dict(unit="c05", molecules=[[mt, cnt]], res=["RB"], sf=sf, seed=s,
+                                            coords={"mode": mode, "k": ncov * cnt, "box": [3.6, 3.8, 3.2], "dx": round(0.47 * sf / 2, 3)}))
+    worlds += between
     res.bound = (f"systems {systems} (linear, branched BR, ring R6 grown as a tree, mixed residue sizes MX/PV/PD, solvent) x boxes {boxes} x start grid {{default 0.2, -gs 0.5, "
                  f"user file of 40 points}} x -sf {sfs} x -mf {mfs} (1e300: only the 0.1 nm floor guards) x {nseeds} seeds = {n_free} worlds (complete product); "
                  f"+ {len(part)} worlds with partially supplied molecules (-c / -mc prefixes, -res on first / inner residues) in a non-cubic box "
-                 f"+ {len(started)} worlds with -start on an inner residue (by molecule name / index) in the three boxes")
+                 f"+ {len(started)} worlds with -start on an inner residue (by molecule name / index) in the three boxes "
+                 f"+ {len(rings)} small-ring worlds: {{6, 10}} rings of {{3, 4}} residues x -sf {{0.6, 0.8}} x {{box 6x5x7 with a 40-point grid file, box 3x3x3}} x residue size "
+                 f"{{template 0.47, [ volumes ] 0.40}} x {len(rseeds)} seeds "
+                 f"+ {len(between)} worlds where the rebuilt residue (-res RB) has two supplied bonded neighbours one step apart: {{chain A-B-A, ring A-B-A, ring A-B-A-B}} x "
+                 f"{{4, 6}} molecules x -sf {{0.6, 0.8}} x {{-c, -mc}} x {len(rseeds)} seeds")
     res.rule = ("non-trivial iff distinct, finished, and (>= 1 generated residue lies across a periodic face from the residue it was grown from, or the system has >= 2 molecules); "
                 "positions are the residue positions on the Topology after BuildSystem.run_system, the growth parent is the prev_node of the accepted "
                 "RandomWalk.update_positions call, sizes are read from the engine's interaction matrix")
